@@ -177,7 +177,7 @@ def check(pid, tier):
         import http_rig
         def wire_env(c):
             c = json.loads(json.dumps(c))
-            c["env"] = {"ll": val([2, 0, 0, 0, 1, 1]), "ifmtu": 1500, "self6": v6("2001:db8:0:1::1"), "deflife": pair(0)}
+            c["env"] = {"ll": val([2, 0, 0, 0, 1, 1]), "ifmtu": 1500, "self6": v6("2001:db8:0:1::1"), "deflife": pair(1800)}
             return c
         def fits_link(c):
             # an advertisement larger than the link MTU cannot be sent at all (it is never fragmented); such
@@ -210,7 +210,7 @@ def check(pid, tier):
             "the decoder is the harness's own, written from the RFCs; equality with the configured values is decided by TLC (Radv.tla)",
             "default lifetimes of the DNS options are not constrained (manual and code disagree); a configured value that does not fit its field may be rejected at load or clamped",
             "function level through the hook radv::verif_build_ra (repeats the mtu/lifetime defaulting of build_announcement)",
-            "service level: the case's configuration is swapped into the running RaAdvService (interface veth0 of the private namespace), a router solicitation is sent from the other end of the veth pair and the advertisement captured there is decoded and judged by the same RadvTrace; environment = the interface's real link-layer address, MTU 1500, global address 2001:db8:0:1::1 for $self6, no default route (default router lifetime 0); the periodic (unsolicited) sender is not waited for",
+            "service level: the case's configuration is swapped into the running RaAdvService (interface veth0 of the private namespace), a router solicitation is sent from the other end of the veth pair and the advertisement captured there is decoded and judged by the same RadvTrace; environment = the interface's real link-layer address, MTU 1500, global address 2001:db8:0:1::1 for $self6, an IPv6 default route through another interface (default router lifetime 1800 s, so that `lifetime: null` and an absent lifetime differ on the wire); the periodic (unsolicited) sender is not waited for",
         ])
     except ToolError as e:
         log("TOOL-ERROR: %s" % e)
